@@ -1,4 +1,5 @@
 import ScrapliModel.Lemmas.Callbacks
+import ScrapliModel.Generated.BodiesCallbacks
 /-!
 # C18 — Callback sends fire the right callback on the right trigger
 
@@ -502,5 +503,18 @@ example : (run check [cbHello] (St.init [] 100) [⟨1, [104, 101, 108]⟩, ⟨1,
 /-- a once callback that does not reset the output fires again on the next (empty) poll: once error -/
 example : (run check [{ cbHello with complete := false, once := true, resetOutput := false }]
     (St.init [] 100) [⟨1, helloWorld⟩, ⟨1, []⟩]).outcome = .onceError := by decide
+
+/-! ## tie to the source: translated body = model (regenerated on every run) -/
+
+/-- the body of `(*Callback).check` as the translator renders it from the current source
+(`Generated/BodiesCallbacks.lean`; the regex match and the cached folded strings are the fields
+`re`, `containsB`, `notContainsB`) is `check`, for every callback and every text -/
+theorem generated_check_eq (cb : Callback) (b : Bytes) :
+    Gen.Bodies.Callbacks.check cb b = check cb b := by
+  unfold Gen.Bodies.Callbacks.check check Callback.view
+  have e1 : (cb.contains != ([] : Bytes)) = !cb.contains.isEmpty := by cases cb.contains <;> rfl
+  have e2 : (cb.notContains != ([] : Bytes)) = !cb.notContains.isEmpty := by
+    cases cb.notContains <;> rfl
+  simp only [e1, e2]
 
 end Scrapli.Cb.C18
